@@ -178,6 +178,19 @@ CHECKS = {
              "real listeners, against Rx + reassembly + table + from_frame in the model.",
         note="frames as handed up by the receiver (C01/C06); bytes-to-frames by the C05 round-trip theorems and correspondence",
         design="7/C10"),
+    "C18": dict(
+        technique="Lean 4 proof: send_packet / on_apsde_indication / get_sequence / bind as record maps with constants "
+                  "regenerated from zigpy and the repo; field-fidelity, little-endian address, option, indication-slicing, "
+                  "never-255 and bind theorems; differential against a real ControllerApplication with a stub API",
+        text="Kernel-checked for every packet / indication / destination: the data request carries the payload unchanged, "
+             "its length, ParamLength 21 (= the summed width of the generated DataReq parameter section), endpoints, "
+             "cluster, profile, TSN; 16-bit addresses little-endian in the first two bytes, IEEE unchanged; ACK / "
+             "encryption options preserved, broadcast sent as group; indications deliver the first PayloadLength bytes "
+             "addressed by the frame-control bits; sequence numbers never reach 255; bind/unbind forward IEEE and "
+             "group destinations faithfully. Tied by driving the real ControllerApplication / ZbossZDO and comparing "
+             "the recorded requests and delivered packets with the model.",
+        note="zigpy classes by the fields read; endpoint-0 (ZDO) packets are routed elsewhere and outside the property",
+        design="7/C18"),
 }
 
 NOT_YET = "check not built yet in this revision of /verif (planned, see DESIGN.md section 7)"
